@@ -299,6 +299,19 @@ func (e *env) genOp(kind int) *op {
 		return o
 	case opBadRollback:
 		// Roll back to or past genesis: must be refused and change nothing.
+		if ft == 0 && e.t.Chance(1, 2) {
+			// The filter store at genesis: nothing to roll back.
+			gh := e.m.Blocks[0].BlockHash()
+			return &op{kind: kind, label: "roll back the filter store at genesis (must be refused)",
+				prims: []prim{{name: "filter.rollback(at genesis)", call: func() error {
+					_, err := e.st.Filter.RollbackLastBlock(&gh)
+					if err == nil {
+						e.rc.Failf("rollback-past-genesis-accepted", map[string]string{"store": "filter"},
+							"filter-header rollback with the filter tip at genesis succeeded")
+					}
+					return nil
+				}, apply: func(*Model) {}}}, commit: func() {}}
+		}
 		n := bt + 1 + e.t.Intn(3)
 		return &op{kind: kind, label: fmt.Sprintf("roll back %d block headers with tip %d (must be refused)", n, bt),
 			prims: []prim{{name: "block.rollback(too many)", call: func() error {
